@@ -147,7 +147,20 @@ func V4Wire(maxOpts, maxVal, mutate int) *rapid.Generator[[]byte] {
 		}
 		end := true
 		var trailing []byte
-		switch rapid.IntRange(0, 7).Draw(t, "tail") {
+		switch rapid.IntRange(0, 9).Draw(t, "tail") {
+		case 8, 9:
+			// bytes after End that look like more options: a well-formed run (relay agent information with sub-options,
+			// a message type, anything) with an End of its own — after End they are padding, whatever they look like
+			var more []refv4.Instance
+			if rapid.Bool().Draw(t, "trail82") {
+				more = append(more, refv4.Instance{Code: 82, Val: []byte{1, 3, 'e', 't', 'h', 2, 2, 'i', 'd'}})
+			}
+			for k := rapid.IntRange(0, 2).Draw(t, "ntrailopts"); k > 0; k-- {
+				more = append(more, refv4.Instance{Code: rapid.SampledFrom([]uint8{53, 54, 12, 82, 61, 1, 255 - 1}).Draw(t, "trailcode"), Val: Fill(t, rapid.IntRange(0, 6).Draw(t, "traillen"), "trailval")})
+			}
+			if len(more) > 0 {
+				trailing = refv4.Area(more, rapid.Bool().Draw(t, "trailend"), nil)
+			}
 		case 0:
 			trailing = Fill(t, rapid.IntRange(1, 40).Draw(t, "ntrail"), "trail")
 		case 1:
